@@ -7,6 +7,19 @@
 #define RANGE_END (PV_EPOCH + 1024 * PV_STEP)
 static char* g_out;
 
+/* What application code looks like: the clock callback and the plain file-scope variable it reads live in the translation unit that
+ * calls the API by name, and the variable is set just before the call and restored afterwards.  The compiler may only keep that
+ * sequence intact if it knows that polyseed_create can call back into this file - which a wrong function attribute in the header
+ * (leaf, const, pure) would deny */
+static uint64_t s_clock = 1;
+static uint64_t own_clock(void) { return s_clock; }
+static uint64_t create_at(uint64_t t, polyseed_data** out) {
+    uint64_t saved = s_clock;
+    s_clock = t;
+    polyseed_status st = polyseed_create(0, out);
+    s_clock = saved;
+    return (uint64_t)st;
+}
 static void inject(bool with_time) {
     polyseed_dependency t; pv_world_table(&t, 0, with_time, true, true);
     pv_api_inject(&t);
@@ -32,8 +45,9 @@ static void one(uint64_t t, bool libc, const char* cls) {
     uint64_t before_inj = pv_w->total[PV_EV_TIME], before_libc = pv_wrap_count[PV_WRAP_TIME];
     if (libc) {
         /* the default clock is Unix time: the process time zone must not matter */
-        static const char* const TZS[] = { "UTC0", "EST5EDT", "PST8PDT", "JST-9", "NZST-12NZDT", "<-11>11" };
-        static unsigned tzi; const char* tz = TZS[tzi++ % 6];
+        /* (the last two are "right" zones of tzdata, where the C library's broken-down time counts leap seconds; silently UTC where tzdata lacks them) */
+        static const char* const TZS[] = { "UTC0", "EST5EDT", "PST8PDT", "JST-9", "NZST-12NZDT", "<-11>11", "right/UTC", "right/Asia/Tokyo" };
+        static unsigned tzi; const char* tz = TZS[tzi++ % 8];
         setenv("TZ", tz, 1); tzset();
         pv_wrap_time_scripted = 1; pv_wrap_time_value = (time_t)t;
     } else {
@@ -174,6 +188,26 @@ static bool conc_iter(pv_rng* r, int iter, void* user, char* err, size_t errsz) 
     free(out); free(img); pv_api_free(s);
     return ok;
 }
+
+/* ---------------------------------------------------------------- the application's own clock: a callback and a file-scope variable in this file */
+static uint64_t n_ownclock(void) { return pv_scaled(3000, 60000); }
+static void run_ownclock(uint64_t idx, pv_rng* rng) {
+    static bool injected;
+    polyseed_dependency t; pv_world_table(&t, 0, true, true, true); t.time = own_clock;
+    pv_api_inject(&t); injected = true; (void)injected;
+    uint64_t tt = (idx % 3 == 0) ? PV_EPOCH + (pv_rand64(rng) % 1024) * PV_STEP + (idx % 2 ? 0 : PV_STEP - 1) : PV_EPOCH + pv_rand64(rng) % (1024 * PV_STEP);
+    polyseed_data* sd = NULL;
+    pv_world_begin("polyseed_create"); uint64_t st = create_at(tt, &sd); pv_world_end();
+    PV_COUNT("evaluations", 1);
+    if (st != POLYSEED_OK) { pv_violation("C11/create-failed", "[own clock] t=%llu -> %s", (unsigned long long)tt, pv_status_name((int)st)); }
+    else {
+        uint64_t B = pv_api_get_birthday(sd), want = pv_m_birthday_time(pv_m_birthday_of(tt));
+        if (B != want) pv_violation("C11/differs-from-model", "[clock kept in a file-scope variable of the calling translation unit, set just before polyseed_create and restored afterwards] t=%llu: birthday %llu, model %llu", (unsigned long long)tt, (unsigned long long)B, (unsigned long long)want);
+        else { PV_COUNT("ownclock.birthdays_equal_model", 1); PV_DISTINCT("nontrivial", pv_mix(tt, 0x0c10c)); }
+        pv_api_free(sd);
+    }
+    g_libc = false; inject(true);
+}
 static uint64_t n_conc(void) { return pv_scaled(3, 100); }
 static void run_conc(uint64_t idx, pv_rng* rng) {
     (void)idx; use_libc(false);
@@ -185,6 +219,6 @@ static void run_conc(uint64_t idx, pv_rng* rng) {
 
 int main(int argc, char** argv) {
     static const pv_section secs[] = { { "boundaries", n_bound, run_bound }, { "special", n_special, run_special }, { "random", n_random, run_random },
-                                       { "sweep", n_sweep, run_sweep }, { "persist", n_persist, run_persist }, { "concurrent", n_conc, run_conc } };
-    return pv_main(argc, argv, "C11", secs, 6, init, fini);
+                                       { "sweep", n_sweep, run_sweep }, { "persist", n_persist, run_persist }, { "ownclock", n_ownclock, run_ownclock }, { "concurrent", n_conc, run_conc } };
+    return pv_main(argc, argv, "C11", secs, 7, init, fini);
 }
